@@ -559,6 +559,61 @@ def check_actions(repo, rep):
                loc=mod.loc(pu.node))
 
 
+def check_documented_operators(repo, rep, rule='R02h'):
+    """The operators of the default table are the ones the language
+    reference lists ("The following operators are available by default").
+    An operator *word* that is in the table but not in the reference is a
+    word users cannot know to be reserved: it stops being usable as a bare
+    keyword / member name / dict key in every default engine."""
+    import os
+    import re as _re
+    fmod = repo.module('yaql.language.factory')
+    symbols = {t.elts[0].value for t in ast.walk(fmod.tree)
+               if isinstance(t, ast.Tuple) and len(t.elts) in (2, 3)
+               and isinstance(t.elts[0], ast.Constant) and
+               isinstance(t.elts[0].value, str) and isinstance(
+                   t.elts[1], (ast.Attribute, ast.Name))} - {'[]', '{}'}
+    path = os.path.join(repo.root, 'doc', 'source',
+                        'language_reference.rst')
+    if not os.path.exists(path):
+        raise AnalysisError('anchor vanished: doc/source/'
+                            'language_reference.rst')
+    text = open(path, encoding='utf-8').read()
+    i = text.find('available by default')
+    if i < 0:
+        raise AnalysisError('anchor vanished: the list of default '
+                            'operators in the language reference')
+    j = text.find('\nUpon yaql parser initialization', i)
+    block = text[i:j if j > 0 else i + 3000]
+    documented = set()
+    for line in block.splitlines():
+        if line.startswith('|') and line.count('|') >= 3:
+            cell = line.split('|')[2]
+            documented |= set(_re.findall(r'`([^`]+)`', cell))
+    if len(documented) < 10:
+        raise AnalysisError('could not read the operator tables of the '
+                            'language reference (%d symbols)' % len(
+                                documented))
+    words = {x for x in symbols if x[:1].isalpha()}
+    rep.ob(rule, 'default-table/word-operators-documented',
+           words <= documented,
+           'operator word(s) %s are in the default operator table but not '
+           'among the default operators of the language reference: in '
+           'every default engine they stop being ordinary words (bare '
+           'keywords, member names, dict keys such as `$.%s`) without users '
+           'having been told' % (sorted(words - documented),
+                                 sorted(words - documented)[0]
+                                 if words - documented else ''),
+           loc='yaql/language/factory.py:0',
+           construct=', '.join(sorted(words - documented)))
+    rep.ob(rule, 'default-table/documented-operators-exist',
+           documented - {'=>'} <= symbols,
+           'the language reference lists default operators %s that the '
+           'default table does not have' % sorted(
+               documented - {'=>'} - symbols),
+           loc='doc/source/language_reference.rst:0')
+
+
 def cross_read_default(repo, rep):
     """The default operator list read from the AST literal must equal the
     list the factory object holds (oracle independence)."""
@@ -629,6 +684,10 @@ def run(repo, rep):
     # which token a word becomes is part of "the operator table decides":
     # an operator word is an operator token wherever it stands
     from sa.rules import c16
+    rep.rule('R02h', 'DEFAULT-OPERATORS-ARE-DOCUMENTED: the operator words of '
+             'the default table are those the language reference lists, and '
+             'every documented default operator exists')
+    check_documented_operators(repo, rep)
     rep.rule('R16d', 'see C16: a word is an operator token iff it is in the '
              'operator table, whatever surrounds it (context-free lexing)')
     c16.check_keywords(repo, rep)
